@@ -91,7 +91,7 @@ func genCase(t *rapid.T) Case {
 	}
 	g := gen.Tree(t, gen.TreeOpts{
 		Layouts: layouts, Floats: gen.SmallInt, MaxDepth: 2, MaxParts: 3, MaxPts: 4,
-		Valid: true, FixEmptyCollections: true, FixedCollectionPct: 30, PEmpty: 15, LongPct: 1, LongMax: 200,
+		Valid: true, FixEmptyCollections: true, FixedCollectionPct: 30, PEmpty: 15, LongPct: 1, LongMax: 200, SRID: gen.SRIDs,
 	})
 	// replace the ordinates: boundary values and general finite values
 	repl := func(cs []model.F) {
